@@ -288,4 +288,39 @@ theorem tables_of_result (fixed : Bool) (file : List Rec) (res : Result) (h : re
         padTable ["evaluator_id"] (if res.evaluators.isEmpty then [] else [res.evaluators]),
         padTable idCols groups] ∧ groups.flatten = res.interactions := tablesOf_readLog fixed file res h
 
+/-! ### phase 3: records that are logged more than once -/
+
+/-- [phase 3] `lastWins` (a Python dict filled by `d[k] = v`): the value kept for a key is the one of its last entry, every key
+is kept once, nothing is invented; on a list with distinct keys it changes nothing -/
+theorem lastWins_spec (l : List (List Int × List PyDict)) :
+    (∀ k, (lastWins l).lookup k = l.reverse.lookup k) ∧ ((lastWins l).map (·.1)).Nodup ∧ (∀ p ∈ lastWins l, p ∈ l)
+    ∧ ((l.map (·.1)).Nodup → lastWins l = l) :=
+  ⟨lastWins_lookup l, lastWins_keys_nodup l, mem_lastWins l, lastWins_of_nodup l⟩
+
+/-- [phase 3] `CleanRun.triNodup` lifted for the interactions table: for ANY list of transactions with well-formed evaluation
+records — a triple may be logged twice or more (restored runs before 6c776fe, concurrent writers) — the table holds, per triple
+in id order, exactly the rows of the LAST record of that triple.  (`interactions_roundtrip` is the special case of distinct triples,
+see `specInteractionsLW_clean`.) -/
+theorem interactions_last_wins (rnd : Rat → Rat) (info : PyDict) (txs : List Tx) (hw : ∀ ir ∈ t4sOf txs, WellFormed ir) :
+    ∃ res, runNoFile rnd true true info txs = .ok res ∧ res.interactions = specInteractionsLW rnd txs :=
+  runNoFile_lw rnd info txs hw
+
+example : ∀ ir ∈ t4sOf [.t4 [0, 0, 0] [[(.str "a", .int 1)]], .t1 0 [], .t4 [0, 0, 0] [[(.str "a", .int 2)], []]], WellFormed ir := by
+  intro ir hir
+  simp only [t4sOf, List.mem_cons, List.mem_nil_iff, or_false] at hir
+  rcases hir with rfl | rfl <;> rfl
+
+theorem specInteractionsLW_clean (rnd : Rat → Rat) (txs : List Tx) (h : ((t4sOf txs).map (·.1)).Nodup) :
+    specInteractionsLW rnd txs = specInteractions rnd txs := specInteractionsLW_eq rnd txs h
+
+/-- [phase 3] `CleanRun.idNodup` lifted for the params tables: for ANY list of transactions, every id recorded for table `t` has
+exactly one row, and it is the union, in log order, of all records of that id (`rows[id].update(params)`: later values win,
+fields recorded only earlier stay) — for the pinned and the repaired encoder -/
+theorem params_union (rnd : Rat → Rat) (fixed : Bool) (t : Tbl) (txs : List Tx) (id : Int) (h : id ∈ (paramsOf t txs).map (·.1)) :
+    (id, unionParams rnd id (paramsOf t txs)) ∈ compRows t (txs.map (encodeTx rnd fixed))
+    ∧ ((compRows t (txs.map (encodeTx rnd fixed))).map (·.1)).Nodup := params_union' rnd fixed t txs id h
+
+example : (3 : Int) ∈ (paramsOf .E [.t1 3 [(.str "a", .int 1)], .t2 3 [], .t1 3 [(.str "b", .tup [])]]).map (·.1) := by
+  simp [paramsOf]
+
 end Coba.C07
